@@ -5,7 +5,7 @@ import htmltools
 from htmltools import HTML, HTMLDocument, Tag, TagList, html_escape
 from htmltools import _util
 
-from engine.api import harness
+from engine.api import conc, concrete, harness
 from oracles.escape import ref_escape_text
 from oracles.util import MARK, TF, subst
 
@@ -129,3 +129,32 @@ def h_numbers(how: int, n: int) -> bool:
         if Tag("i", f).get_html_string() != "<i>" + str(f) + "</i>":
             return False
     return True
+
+
+_LONG = ["<b>&", "x" * 63 + "<", "y" * 64 + "&<>", ("ab<&>" * 13), "z" * 200 + "</div><script>", "é☃ & " * 40, "<" * 1100]
+
+
+def _hist_body(sv: int, order: int) -> bool:
+    s = _LONG[sv]
+    want = ref_escape_text(s)
+    txt = lambda: Tag("div", s, Tag("i")).get_html_string() == "<div>\n  " + want + "\n  <i></i>\n</div>"        # noqa: E731
+    one = lambda: Tag("p", s).get_html_string() == "<p>" + want + "</p>"                                          # noqa: E731
+    raw = lambda: Tag("div", HTML(s), Tag("i")).get_html_string() == "<div>\n  " + s + "\n  <i></i>\n</div>"      # noqa: E731
+    raw1 = lambda: Tag("p", HTML(s)).get_html_string() == "<p>" + s + "</p>"                                      # noqa: E731
+    att = lambda: 'title="' in Tag("p", title=s).get_html_string()                                               # noqa: E731
+    seqs = [[raw, txt, one], [raw1, one, txt, raw], [txt, raw, txt], [att, one, raw1, one], [one, one, raw1, raw1, one]]
+    for step in seqs[order]:
+        if not step():
+            return False
+    return html_escape(s) == want
+
+
+@harness("C02", pre=lambda B, sv, order: 0 <= sv < len(_LONG) and 0 <= order <= 4,
+         shard={"sv": range(len(_LONG))},
+         sel=["sv: strings of 4 to 1100 characters with metacharacters (lengths around 64, non-ASCII)",
+              "order: the same characters rendered as HTML() before/after/between renderings as plain text, as an attribute first, repeated"],
+         targets=["htmltools._core._normalize_text", "htmltools._util.html_escape"],
+         outside="strings are catalogue values: this harness targets state carried between renderings (caches keyed by text), which a bound of 3 symbolic characters cannot reach")
+def h_emit_history(sv: int, order: int) -> bool:
+    """the escaped form of a plain string does not depend on what was rendered before (the same text as HTML(), as an attribute, repeatedly)"""
+    return concrete(_hist_body, conc(sv, 0, len(_LONG) - 1), conc(order, 0, 4))
